@@ -29,14 +29,30 @@ static void *ra_note(void *p, size_t n) {
 	if (p != NULL && ra_cnt < RA_MAX) { ra_tab[ra_cnt].p = p; ra_tab[ra_cnt].n = n; ra_tab[ra_cnt].freed = 0; ra_tab[ra_cnt].serial = ra_serial; ra_cnt++; }
 	return p;
 }
-static int ra_inject(void) { if (!ra_on) return 0; ra_serial++; if (ra_fail_at != 0 && ra_serial == ra_fail_at) { ra_failed++; return 1; } return 0; }
+/* Only allocations made through the SDK's funnels KSI_malloc / KSI_calloc (base.c) are counted, failed and
+ * leak-checked: OpenSSL / libcurl keep process-wide caches that are not the SDK's to free.  The caller is
+ * recognised by its return address lying inside KSI_malloc / KSI_calloc (adjacent functions of base.c). */
+extern void *KSI_malloc(size_t); extern void *KSI_calloc(size_t, size_t); extern void KSI_free(void *);
+static int ra_from_funnel(void *ret) {
+	char *r = (char *)ret, *m = (char *)KSI_malloc, *c = (char *)KSI_calloc, *f = (char *)KSI_free;
+	if (!(m < c && c < f && c - m < 1024 && f - c < 1024)) return 1;   /* unexpected layout: count everything */
+	return r >= m && r < f;
+}
+static int ra_inject(void) { ra_serial++; if (ra_fail_at != 0 && ra_serial == ra_fail_at) { ra_failed++; return 1; } return 0; }
 
-void *malloc(size_t n) { if (ra_inject()) return NULL; return ra_on ? ra_note(__libc_malloc(n), n) : __libc_malloc(n); }
-void *calloc(size_t a, size_t b) { if (ra_inject()) return NULL; return ra_on ? ra_note(__libc_calloc(a, b), a * b) : __libc_calloc(a, b); }
+void *malloc(size_t n) {
+	if (!ra_on || !ra_from_funnel(__builtin_return_address(0))) return __libc_malloc(n);
+	if (ra_inject()) return NULL;
+	return ra_note(__libc_malloc(n), n);
+}
+void *calloc(size_t a, size_t b) {
+	if (!ra_on || !ra_from_funnel(__builtin_return_address(0))) return __libc_calloc(a, b);
+	if (ra_inject()) return NULL;
+	return ra_note(__libc_calloc(a, b), a * b);
+}
 void *realloc(void *p, size_t n) {
 	ra_rec *r;
-	if (!ra_on || p == NULL || (r = ra_find(p)) == NULL) { if (p == NULL && ra_inject()) return NULL; return (ra_on && p == NULL) ? ra_note(__libc_realloc(p, n), n) : __libc_realloc(p, n); }
-	if (ra_inject()) return NULL;
+	if (p == NULL || (r = ra_find(p)) == NULL) return __libc_realloc(p, n);     /* the SDK never reallocs */
 	{ void *q = __libc_malloc(n); if (q == NULL) return NULL; memcpy(q, p, r->n < n ? r->n : n); r->freed = 1; return ra_note(q, n); }
 }
 void free(void *p) {
